@@ -167,6 +167,7 @@ func (in *Inst) VamanaBattery(o *Obs, m *Model, c VamanaQueryCfg) {
 		return
 	}
 	PQCheck(o, "vamana", env, m, c.Prop)
+	VectorKeysCheck(o, "vamana", d["index/vectorVamana/"+c.Prop], NodeIds(d), m, c.Prop, 1) // node 1 = the graph's entry node
 	nvec := 0
 	for _, doc := range m.Docs {
 		if _, ok := VecOf(doc, c.Prop); ok {
